@@ -27,7 +27,7 @@ for p in props:
         "evidence_file": "/verif/evidence/%s.json" % pid,
         "replay_cmd_template": "./check %s --replay {path}" % pid,
         "engine": "coq+harness",
-        "level_claimed": {"category": meta.get("category", "proof"), "text": meta["text"], "design_ref": meta.get("design_ref", "DESIGN.md section 4, " + pid)},
+        "level_claimed": {"category": (meta.get("category", "proof") if meta.get("category", "proof") in ("exploration","fault_enumeration","model_checking","proof","translation_validation","other") else ("proof" if str(meta.get("category")).startswith("proof") else "other")), "text": meta["text"], "design_ref": meta.get("design_ref", "DESIGN.md section 4, " + pid)},
         "level_note": meta["note"],
         "technique": meta.get("technique", "machine-checked proof in Coq 8.16.1 over a hand-written Gallina model + correspondence check (model vs Go on generated inputs) + failing-input search"),
     })
